@@ -63,11 +63,30 @@ def ctx_{HELPER}_reach(okind: int, status: int, ckind: int, depth: int, sup: boo
 '''
 
 
+OSX = '''
+def osx_{HELPER}(okind: int, en: int) -> bool:
+    """
+    pre: 0 <= okind < {NOSX} and 0 <= en <= {EMAX}
+    post: _
+    """
+    return H.osx_check({HELPER!r}, okind, en) == ''
+
+
+def osx_{HELPER}_reach(okind: int, en: int) -> bool:
+    """
+    pre: 0 <= okind < {NOSX} and 0 <= en <= {EMAX}
+    post: _
+    """
+    # reachability twin: must be REFUTED (an unnamed OSError-family error with an uncompared errno is raised)
+    return H.osx_check({HELPER!r}, okind, en) != '' or H.osx_run({HELPER!r}, okind, en)[0] != 'raised' or en in H.REF_ERRNOS
+'''
+
+
 def seq_tag(prefix):
     return '_'.join(str(k) for k in prefix)
 
 
-def source(sweeps, seqs, K, MAXS, NREPS, ctx=(), NO=0, SLO=400, SHI=405):
+def source(sweeps, seqs, K, MAXS, NREPS, ctx=(), NO=0, SLO=400, SHI=405, NOSX=0, EMAX=200):
     """sweeps: list of (t, lo, hi) kind ranges; seqs: list of (n, fixed_prefix_kinds, twin_outcome)"""
     out = [HEAD]
     for t in sorted({t for t, _, _ in sweeps}):
@@ -83,4 +102,6 @@ def source(sweeps, seqs, K, MAXS, NREPS, ctx=(), NO=0, SLO=400, SHI=405):
                               KLIST=', '.join([str(k) for k in prefix] + kn), WHAT=what))
     for h in ctx:
         out.append(CTX.format(HELPER=h, NO=NO, SLO=SLO, SHI=SHI, K=K))
+        if NOSX:
+            out.append(OSX.format(HELPER=h, NOSX=NOSX, EMAX=EMAX))
     return '\n'.join(out)
